@@ -133,7 +133,7 @@ def make_server_harness(n_tokens):
     return harness
 
 
-ARGS = ['a', 'a b', ':a', 'a:b', 'a\rb', 'a\nb', 'a\r\nb', 'a\x00b', '', ' ', 'x y z', '\r', 'b']
+ARGS = ['a', 'a b', ':a', 'a:b', 'a\rb', 'a\nb', 'a\r\nb', 'a\x00b', '', ' ', 'x y z', '\r', 'b', 'see you\r\nQUIT :x', 'a b\rc']
 CONSTRUCTORS = [('AWAY', 1), ('NICK', 2), ('USER', 4), ('PASS', 1), ('PONG', 2), ('QUIT', 1), ('JOIN', 2), ('PART', 2), ('PRIVMSG', 2),
                 ('NOTICE', 2), ('KICK', 3), ('TOPIC', 2), ('MODE', 3), ('INVITE', 2), ('NAMES', 1), ('WHOIS', 2), ('WHO', 2)]
 
